@@ -3,11 +3,11 @@
 //! world: same sockets, same addresses, no compression). Everything here is stimulus / plumbing;
 //! the oracles live in `scen.rs`.
 
-use crate::sim::SimDevice;
 use smoltcp::iface::{Config, Interface, SocketHandle, SocketSet};
-use smoltcp::phy::Medium;
+use smoltcp::phy::{self, Device, DeviceCapabilities, Medium};
 use smoltcp::socket::{icmp, raw, tcp, udp};
 use smoltcp::time::Instant;
+use std::collections::VecDeque;
 use smoltcp::wire::{
     HardwareAddress, Ieee802154Address, Ieee802154Pan, IpAddress, IpCidr, IpEndpoint, IpProtocol,
     IpVersion, Ipv6Address, SixlowpanAddressContext,
@@ -62,6 +62,11 @@ pub enum AddrClass {
     /// fd00:0:0:aa::/64 + IID derived from the link-layer address; the /64 is installed as
     /// 6LoWPAN address context 0 on both nodes
     Ctx,
+    /// fe80:0:0:1::/64 + IID: inside fe80::/10 but NOT in fe80::/64, so not a link-local address
+    /// RFC 6282 stateless compression may elide the prefix of
+    LlWideA,
+    /// fe90::/64 + 0000:00ff:fe00:XXXX: inside fe80::/10, looks like the short-address form
+    LlWideB,
     /// ff02::1
     McAllNodes,
     /// ff02::1:ffXX:XXXX of the receiver's LlHw address (48-bit multicast form)
@@ -75,7 +80,8 @@ pub enum AddrClass {
     /// ff05:0:0:1:2:3:4:5 (no compressed form: 128 bits in-line)
     McFull,
 }
-pub const UNICAST_CLASSES: [AddrClass; 5] = [AddrClass::LlHw, AddrClass::Ll16, AddrClass::Ll64, AddrClass::Global, AddrClass::Ctx];
+pub const UNICAST_CLASSES: [AddrClass; 7] =
+    [AddrClass::LlHw, AddrClass::Ll16, AddrClass::Ll64, AddrClass::Global, AddrClass::Ctx, AddrClass::LlWideA, AddrClass::LlWideB];
 pub const MCAST_CLASSES: [AddrClass; 6] =
     [AddrClass::McAllNodes, AddrClass::McSolicited, AddrClass::Mc8, AddrClass::Mc32, AddrClass::Mc48, AddrClass::McFull];
 impl AddrClass {
@@ -86,6 +92,8 @@ impl AddrClass {
             AddrClass::Ll64 => "ll-64",
             AddrClass::Global => "global",
             AddrClass::Ctx => "ctx",
+            AddrClass::LlWideA => "fe80-0-0-1",
+            AddrClass::LlWideB => "fe90",
             AddrClass::McAllNodes => "mc-all-nodes",
             AddrClass::McSolicited => "mc-solicited",
             AddrClass::Mc8 => "mc-8bit",
@@ -145,6 +153,8 @@ fn mk(prefix: [u8; 8], iid: [u8; 8]) -> Ipv6Address {
 pub const LL_PREFIX: [u8; 8] = [0xfe, 0x80, 0, 0, 0, 0, 0, 0];
 pub const GLOBAL_PREFIX: [u8; 8] = [0x20, 0x01, 0x0d, 0xb8, 0, 0, 0, 1];
 pub const CTX_PREFIX: [u8; 8] = [0xfd, 0, 0, 0, 0, 0, 0, 0xaa];
+pub const WIDE_A_PREFIX: [u8; 8] = [0xfe, 0x80, 0, 0, 0, 0, 0, 1];
+pub const WIDE_B_PREFIX: [u8; 8] = [0xfe, 0x90, 0, 0, 0, 0, 0, 0];
 
 /// unicast address of class `c` owned by node `node`
 pub fn unicast_addr(node: usize, hw: HwKind, c: AddrClass) -> Ipv6Address {
@@ -155,6 +165,8 @@ pub fn unicast_addr(node: usize, hw: HwKind, c: AddrClass) -> Ipv6Address {
         AddrClass::Ll64 => mk(LL_PREFIX, [0x12, 0x34, 0x56, 0x78, 0x9a, 0xbc, 0xde, n]),
         AddrClass::Global => mk(GLOBAL_PREFIX, iid_of(node, hw)),
         AddrClass::Ctx => mk(CTX_PREFIX, iid_of(node, hw)),
+        AddrClass::LlWideA => mk(WIDE_A_PREFIX, [0, 0, 0, 0, 0, 0, 0xab, 0xc0 + n]),
+        AddrClass::LlWideB => mk(WIDE_B_PREFIX, [0, 0, 0, 0xff, 0xfe, 0, 0xbe, 0xe0 + n]),
         _ => panic!("not a unicast class"),
     }
 }
@@ -188,17 +200,76 @@ pub struct WorldCfg {
     pub pan: bool,
     pub s_hw: HwKind,
     pub r_hw: HwKind,
-    /// second address (besides LlHw) configured on S / R (IFACE_MAX_ADDR_COUNT may be 2)
-    pub s_extra: Option<AddrClass>,
-    pub r_extra: Option<AddrClass>,
+    /// further addresses (besides LlHw) configured on S / R (IFACE_MAX_ADDR_COUNT may be 2)
+    pub s_extra: Vec<AddrClass>,
+    pub r_extra: Vec<AddrClass>,
+    /// octet every transmit buffer is pre-filled with before smoltcp writes the frame
+    pub fill: u8,
     pub r_any_ip: bool,
     pub proto: Proto,
     pub tcp_buf: usize,
 }
 
+// ---------------------------------------------------------------------------------------
+// Device: like sim::SimDevice, but every transmit buffer is pre-filled with `fill` (0xA5) so
+// that header bits/octets smoltcp fails to write are not accidentally zero.
+// ---------------------------------------------------------------------------------------
+
+pub struct FillDevice {
+    pub medium: Medium,
+    pub mtu: usize,
+    pub fill: u8,
+    pub rx: VecDeque<Vec<u8>>,
+    pub tx: Vec<(i64, Vec<u8>)>,
+}
+impl FillDevice {
+    pub fn new(medium: Medium, mtu: usize, fill: u8) -> FillDevice {
+        FillDevice { medium, mtu, fill, rx: VecDeque::new(), tx: Vec::new() }
+    }
+    pub fn take_tx(&mut self) -> Vec<(i64, Vec<u8>)> {
+        std::mem::take(&mut self.tx)
+    }
+}
+pub struct FillRx(Vec<u8>);
+pub struct FillTx<'a> {
+    tx: &'a mut Vec<(i64, Vec<u8>)>,
+    ts: i64,
+    fill: u8,
+}
+impl phy::RxToken for FillRx {
+    fn consume<R, F: FnOnce(&[u8]) -> R>(self, f: F) -> R {
+        f(&self.0)
+    }
+}
+impl<'a> phy::TxToken for FillTx<'a> {
+    fn consume<R, F: FnOnce(&mut [u8]) -> R>(self, len: usize, f: F) -> R {
+        let mut buf = vec![self.fill; len];
+        let r = f(&mut buf);
+        self.tx.push((self.ts, buf));
+        r
+    }
+}
+impl Device for FillDevice {
+    type RxToken<'a> = FillRx;
+    type TxToken<'a> = FillTx<'a>;
+    fn capabilities(&self) -> DeviceCapabilities {
+        let mut c = DeviceCapabilities::default();
+        c.medium = self.medium;
+        c.max_transmission_unit = self.mtu;
+        c
+    }
+    fn receive(&mut self, ts: Instant) -> Option<(FillRx, FillTx<'_>)> {
+        let f = self.rx.pop_front()?;
+        Some((FillRx(f), FillTx { tx: &mut self.tx, ts: ts.total_micros(), fill: self.fill }))
+    }
+    fn transmit(&mut self, ts: Instant) -> Option<FillTx<'_>> {
+        Some(FillTx { tx: &mut self.tx, ts: ts.total_micros(), fill: self.fill })
+    }
+}
+
 pub struct Node {
     pub iface: Interface,
-    pub dev: SimDevice,
+    pub dev: FillDevice,
     pub sockets: SocketSet<'static>,
     pub udp: SocketHandle,
     pub warm: SocketHandle,
@@ -217,12 +288,12 @@ fn udp_sock(meta: usize, bytes: usize) -> udp::Socket<'static> {
 
 impl Node {
     fn new(node: usize, cfg: &WorldCfg) -> Node {
-        let (hw, extra) = if node == 0 { (cfg.s_hw, cfg.s_extra) } else { (cfg.r_hw, cfg.r_extra) };
+        let (hw, extra) = if node == 0 { (cfg.s_hw, cfg.s_extra.clone()) } else { (cfg.r_hw, cfg.r_extra.clone()) };
         let medium = match cfg.med {
             Med::Lowpan => Medium::Ieee802154,
             Med::Ip => Medium::Ip,
         };
-        let mut dev = SimDevice::new(medium, cfg.mtu);
+        let mut dev = FillDevice::new(medium, cfg.mtu, cfg.fill);
         let hwaddr = match cfg.med {
             Med::Ip => HardwareAddress::Ip,
             Med::Lowpan => HardwareAddress::Ieee802154(match hw {
@@ -237,9 +308,10 @@ impl Node {
         }
         let mut iface = Interface::new(c, &mut dev, Instant::from_micros(0));
         let mut addrs = vec![unicast_addr(node, hw, AddrClass::LlHw)];
-        if let Some(x) = extra {
-            if x != AddrClass::LlHw {
-                addrs.push(unicast_addr(node, hw, x));
+        for x in extra {
+            let a = unicast_addr(node, hw, x);
+            if x != AddrClass::LlHw && !addrs.contains(&a) {
+                addrs.push(a);
             }
         }
         iface.update_ip_addrs(|a| {
